@@ -116,6 +116,12 @@ CHECKS['C04'] = ('xmap-calls',
   'Trusts: TLC; the fresh-map oracle (the property\'s own reference); residue numbers of arguments are varied on the coordinate side (gro_resid), as System does - Molecule.resids also rewrites the shared topology residue numbers, which the library treats as species identity (DESIGN 5, observation O1); generic conformations; equal residue counts of reference and target.', 'DESIGN 3 C04')
 ENGINES['xmap-calls'] = ('harness/drivers/xmapcalls.py', 'XMapCalls.tla + MC_XMapCalls.tla: exhaustive + simulated histories replayed with full state comparison and a fresh-map oracle')
 
+CHECKS['C05'] = ('extrapolate',
+  'Extrapolate.tla: the Manager life cycle (AddEnd, CalcMaps, failing pre-flight that creates no file, single writer pass Visit / Skip / Close with a running atom counter; the manager stays usable afterwards) with the abstract file as one entry per written molecule; MC_Extrapolate.tla proves FileIsAbs, PrefixIsAbs, NoFileOnError, ErrorIffNotReady for every file and life cycle of the bounds; every terminal behaviour is executed on a real Manager and the re-read output (independent fixed-column parser, cut into molecules by target atom names) compared with TLC\'s file and validated with random systems and the shipped BMIM/BF4 box by TLC against Trace_Extrapolate.tla',
+  'Exhaustive: files of <= 3 (thorough 4) molecules over P (3-atom reference, two residues), Q (2-atom reference), R (1-atom reference) and unloaded solvent, every life cycle of <= 4 (5) AddEnd / CalcMaps / failing Extrapolate operations before the successful one: 5 661 (1e5) terminal behaviours, 2 500 (40 000) executed with rectangular / triclinic boxes, three titles incl. blank, four scales. Random systems: 2..5 species (references of 1..9 atoms, 1..2 residues), up to 120 (400) molecules in blocks or interleaved, unloaded species, species without end, extrapolation attempted before maps exist and again after more ends were attached. For every written molecule TLC decides which input molecule must come next, the running atom number and the final count; the harness supplies per molecule: residue numbers = the input molecule\'s, positions = exchange_map(input molecule) to half a unit of the third decimal (references of < 3 atoms: distance / axial / radial coordinate), and title / box / declared count at close; an error must leave no file.',
+  'Trusts: TLC; the independent fixed-column reader and the files written by the harness; the species\' exchange map as the reference for positions (the property\'s own wording; the map itself is C01-C04); equal residue counts of reference and target; the shipped box uses a 3-step-factor alignment.', 'DESIGN 3 C05')
+ENGINES['extrapolate'] = ('harness/drivers/extrapolate.py', 'Extrapolate.tla + MC_Extrapolate.tla + Trace_Extrapolate.tla')
+
 PENDING_REASON = 'check not built yet in this round (build in progress; see DESIGN.md Appendix B)'
 
 
